@@ -594,9 +594,6 @@ func (t *transitiveClosure) addElement(
 			t.elements[descriptor] = inclusionModeExcluded
 			return nil
 		}
-		if err := t.addElement(extendeeInfo.element, descriptorInfo.file.Path(), impliedByCustomOption, imageIndex, opts); err != nil {
-			return err
-		}
 		isIncluded, err := t.addFieldType(typedDescriptor, descriptorInfo.file.Path(), imageIndex, opts)
 		if err != nil {
 			return err
@@ -604,6 +601,9 @@ func (t *transitiveClosure) addElement(
 		if !isIncluded {
 			t.elements[descriptor] = inclusionModeExcluded
 			return nil
+		}
+		if err := t.addElement(extendeeInfo.element, descriptorInfo.file.Path(), impliedByCustomOption, imageIndex, opts); err != nil {
+			return err
 		}
 
 	default:
@@ -892,23 +892,24 @@ func (t *transitiveClosure) exploreCustomOptions(
 		if !t.hasOption(fd, imageIndex, opts) {
 			return true
 		}
+		// Include custom option definitions (e.g. extensions)
+		if fd.IsExtension() {
+			optionsByNumber := imageIndex.NameToOptions[optionsName]
+			// If the option is unrecognized, there is no definition to add.
+			if field, ok := optionsByNumber[int32(fd.Number())]; ok {
+				if err = t.addElement(field, referrerFile, true, imageIndex, opts); err != nil {
+					return false
+				}
+				if !t.hasOption(fd, imageIndex, opts) {
+					// The definition cannot be kept (its type is excluded), so
+					// nothing in the value of the option is needed either.
+					return true
+				}
+			}
+		}
 		// If the value contains an Any message, we should add the message type
 		// therein to the closure.
-		if err = t.exploreOptionValueForAny(fd, val, referrerFile, imageIndex, opts); err != nil {
-			return false
-		}
-
-		// Also include custom option definitions (e.g. extensions)
-		if !fd.IsExtension() {
-			return true
-		}
-		optionsByNumber := imageIndex.NameToOptions[optionsName]
-		field, ok := optionsByNumber[int32(fd.Number())]
-		if !ok {
-			// Option is unrecognized, ignore it.
-			return true
-		}
-		err = t.addElement(field, referrerFile, true, imageIndex, opts)
+		err = t.exploreOptionValueForAny(fd, val, referrerFile, imageIndex, opts)
 		return err == nil
 	})
 	return err
